@@ -1,6 +1,454 @@
 ------------------------------- MODULE Props -------------------------------
-(* Property predicates C01..C20 over one recorded scan (placeholder, filled in below). *)
+(***************************************************************************)
+(* The listed properties as predicates over ONE recorded scan of the real  *)
+(* controller: line (calls, return value, gauges), pre / post (abstract    *)
+(* world before / after), exp (what EscalatorCore admits for pre).         *)
+(* Each predicate is transcribed from the statement in properties.jsonl,   *)
+(* not from the code path; what lies upstream of a property's own concern  *)
+(* (classification, the scan's own decision, the real desired capacity) is *)
+(* taken from the observation.  Violations(..) returns tuples              *)
+(* <<property id, clause key, group, detail>>; Facts(..) returns the       *)
+(* non-vacuity facts "<id>:<what>" witnessed by the line.                  *)
+(***************************************************************************)
 EXTENDS EscalatorCore
-Violations(line, pre, post, exp) == {}
-Facts(line, pre, post, exp) == {}
+
+Groups(W) == DOMAIN W.groups
+SeqFilter(s, P(_)) == SelectSeq(s, P)
+CallsOf(line, g) == SelectSeq(line.calls, LAMBDA c : c.g = g)
+SetOf(s, P(_), f(_)) == {f(s[i]) : i \in {j \in 1..Len(s) : P(s[j])}}
+
+IsTaintUpd(c) == c.op = "update" /\ (c.s = "taint:NoSchedule" \/ c.s = "taint:NoExecute" \/ c.s = "taint:PreferNoSchedule")
+IsUntaintUpd(c) == c.op = "update" /\ c.s = "untaint:"
+
+TermAttempt(line, g) == SetOf(line.calls, LAMBDA c : c.op = "terminate" /\ c.g = g, LAMBDA c : c.n)
+TermOK(line, g)      == SetOf(line.calls, LAMBDA c : c.op = "terminate" /\ c.g = g /\ c.ok, LAMBDA c : c.n)
+DelAttempt(line, g)  == SetOf(line.calls, LAMBDA c : c.op = "delete" /\ c.g = g, LAMBDA c : c.n)
+TaintedOK(line, g)   == SetOf(line.calls, LAMBDA c : c.g = g /\ IsTaintUpd(c) /\ c.ok, LAMBDA c : c.n)
+TaintAttempt(line, g) == SetOf(line.calls, LAMBDA c : c.g = g /\ c.op = "update" /\ c.s # "untaint:", LAMBDA c : c.n)
+UntaintedOK(line, g) == SetOf(line.calls, LAMBDA c : c.g = g /\ IsUntaintUpd(c) /\ c.ok, LAMBDA c : c.n)
+Gets(line, g)        == SetOf(line.calls, LAMBDA c : c.g = g /\ c.op = "get", LAMBDA c : c.n)
+SetDesireds(line, g) == SelectSeq(line.calls, LAMBDA c : c.op = "set_desired" /\ (c.g = g \/ c.n = g))
+WriteCalls(line, g)  == SelectSeq(line.calls, LAMBDA c : IsWrite(c) /\ (c.g = g \/ (c.op = "set_desired" /\ c.n = g)))
+
+\* the scan's view, by the statement's vocabulary
+V(W, g) == ViewOf(W.groups[g])
+Listed(W, g) == DOMAIN V(W, g)
+UntSet(W, g) == {n \in Listed(W, g) : ~V(W, g)[n].cordoned /\ ~V(W, g)[n].force /\ ~V(W, g)[n].taint.has}
+TntSet(W, g) == {n \in Listed(W, g) : ~V(W, g)[n].cordoned /\ ~V(W, g)[n].force /\ V(W, g)[n].taint.has}
+Dry(W, g) == W.dryAll \/ W.groups[g].cfg.dry
+NoFaults(line) == line.faults = <<>>
+RefreshFailed(line) == \E i \in 1..Len(line.faults) : line.faults[i].op = "describe_asgs" /\ line.faults[i].t = "all"
+\* the cloud group's bounds as known to this scan
+CloudMin(line, W, g) == IF RefreshFailed(line) THEN W.groups[g].pc.min ELSE W.groups[g].asg.min
+CloudMax(line, W, g) == IF RefreshFailed(line) THEN W.groups[g].pc.max ELSE W.groups[g].asg.max
+MinOf(line, W, g) == IF W.groups[g].cfg.auto THEN CloudMin(line, W, g) ELSE W.groups[g].cfg.min
+MaxOf(line, W, g) == IF W.groups[g].cfg.auto THEN CloudMax(line, W, g) ELSE W.groups[g].cfg.max
+\* the lock as the controller remembers it (upstream of every property but C02)
+CtlLocked(W, g) == W.now - W.groups[g].ctl.lockAt < W.groups[g].cfg.cool
+Scanned(line, g) == \E i \in 1..Len(line.calls) : line.calls[i].op = "list_pods" /\ line.calls[i].g = g /\ line.calls[i].ok
+ListedOK(line, g) == /\ Scanned(line, g)
+                     /\ \E i \in 1..Len(line.calls) : line.calls[i].op = "list_nodes" /\ line.calls[i].g = g /\ line.calls[i].ok
+InBounds(line, W, g) == LET n == Cardinality(Listed(W, g)) IN n >= MinOf(line, W, g) /\ n <= MaxOf(line, W, g)
+
+-----------------------------------------------------------------------------
+\* C01 — removal only after taint, grace period and drain conditions
+Age(W, g, n) == W.now - V(W, g)[n].taint.at
+ClauseA(W, g, n) == LET v == V(W, g)[n] IN v.taint.has /\ v.taint.ok /\ Age(W, g, n) > W.groups[g].cfg.soft /\ PodsOn(W.groups[g], n) = 0
+ClauseB(W, g, n) == LET v == V(W, g)[n] IN v.taint.has /\ v.taint.ok /\ Age(W, g, n) > W.groups[g].cfg.hard
+ClauseC(W, g, n) == V(W, g)[n].force /\ PodsOn(W.groups[g], n) = 0
+Removable(W, g, n) == n \in Listed(W, g) /\ ~V(W, g)[n].cordoned /\ (ClauseA(W, g, n) \/ ClauseB(W, g, n) \/ ClauseC(W, g, n))
+WhyNot(W, g, n) ==
+  IF n \notin Listed(W, g) THEN "not-in-view"
+  ELSE LET v == V(W, g)[n] IN
+       IF v.cordoned THEN "cordoned"
+       ELSE IF v.force THEN "force-busy"
+       ELSE IF ~v.taint.has THEN "untainted"
+       ELSE IF ~v.taint.ok THEN "unreadable-taint-time"
+       ELSE IF Age(W, g, n) <= W.groups[g].cfg.soft THEN "soft-not-passed"
+       ELSE "busy-before-hard"
+C01v(line, pre) ==
+  UNION {{<<"C01", WhyNot(pre, g, n), g, n>> : n \in {m \in TermAttempt(line, g) \cup DelAttempt(line, g) : ~Removable(pre, g, m)}} : g \in Groups(pre)}
+C01f(line, pre) ==
+  UNION {LET rem == TermOK(line, g) IN
+         {IF ClauseC(pre, g, n) THEN "C01:removed-c" ELSE IF ClauseA(pre, g, n) THEN "C01:removed-a" ELSE "C01:removed-b" : n \in {m \in rem : Removable(pre, g, m)}}
+         \cup {"C01:kept-" \o WhyNot(pre, g, n) : n \in {m \in Listed(pre, g) \ rem :
+                    ~Removable(pre, g, m) /\ (V(pre, g)[m].taint.has \/ V(pre, g)[m].force \/ V(pre, g)[m].cordoned)}}
+        : g \in Groups(pre)}
+
+-----------------------------------------------------------------------------
+\* C02 — no scaling activity inside the cool-down; the lock never outlives it
+InCoolDown(W, g) == W.now - W.groups[g].accepted < W.groups[g].cfg.cool
+C02v(line, pre) ==
+  UNION {IF InCoolDown(pre, g) /\ WriteCalls(line, g) # <<>>
+           THEN {<<"C02", "write-in-cooldown:" \o WriteCalls(line, g)[1].op, g, WriteCalls(line, g)[1].n>>} ELSE {} : g \in Groups(pre)}
+  \cup UNION {IF /\ "twin" \in DOMAIN line /\ NoFaults(line) /\ ~InCoolDown(pre, g)
+                 /\ ~pre.groups[g].lag /\ WriteCalls(line, g) = <<>> /\ Gets(line, g) = {}
+                 /\ g \in DOMAIN line.twin.writes /\ line.twin.writes[g] > 0
+              THEN {<<"C02", "silent-after-cooldown", g, "">>} ELSE {} : g \in Groups(pre)}
+C02f(line, pre) ==
+  UNION {(IF InCoolDown(pre, g) /\ Scanned(line, g) THEN {"C02:scan-in-cooldown"} ELSE {})
+         \cup (IF InCoolDown(pre, g) /\ ListedOK(line, g) /\ InBounds(line, pre, g) /\ Cardinality(UntSet(pre, g)) < MinOf(line, pre, g)
+                 THEN {"C02:cooldown-below-min"} ELSE {})
+         \cup (IF InCoolDown(pre, g) /\ ListedOK(line, g) /\ \E n \in Listed(pre, g) : Removable(pre, g, n) THEN {"C02:cooldown-removable"} ELSE {})
+         \cup (IF ~InCoolDown(pre, g) /\ pre.groups[g].accepted > Never /\ WriteCalls(line, g) # <<>> THEN {"C02:acts-after-cooldown"} ELSE {})
+         \cup (IF "twin" \in DOMAIN line /\ ~InCoolDown(pre, g) /\ g \in DOMAIN line.twin.writes /\ line.twin.writes[g] > 0 THEN {"C02:twin-acts"} ELSE {})
+        : g \in Groups(pre)}
+
+-----------------------------------------------------------------------------
+\* C03 — tainting never leaves fewer than min_nodes schedulable nodes
+C03v(line, pre, post) ==
+  UNION {LET T == TaintedOK(line, g)
+             nU == Cardinality(UntSet(pre, g))
+             mn == MinOf(line, pre, g)
+             need == mn - nU
+             U == UntaintedOK(line, g)
+             sd == SetDesireds(line, g)
+             bound == Min2(MaxOf(line, pre, g), CloudMax(line, pre, g))
+             real == IF RefreshFailed(line) THEN pre.groups[g].pc.desired ELSE pre.groups[g].asg.desired
+             rest == need - Cardinality(U)
+             recovering == /\ ListedOK(line, g) /\ ~Dry(pre, g) /\ ~CtlLocked(pre, g) /\ InBounds(line, pre, g) /\ nU < mn
+         IN (IF T # {} /\ nU - Cardinality(T) < mn THEN {<<"C03", "taint-below-min", g, "">>} ELSE {})
+            \cup (IF recovering /\ T # {} THEN {<<"C03", "taint-while-below-min", g, "">>} ELSE {})
+            \cup (IF recovering /\ NoFaults(line) /\ ~pre.groups[g].lag /\ Cardinality(U) # Min2(need, Cardinality(TntSet(pre, g)))
+                    THEN {<<"C03", "recovery-untaint-count", g, "">>} ELSE {})
+            \cup (IF recovering /\ NoFaults(line) /\ ~pre.groups[g].lag /\ ~pre.groups[g].cfg.fleet /\ rest > 0 /\ bound - real > 0
+                     /\ ~(Len(sd) = 1 /\ sd[1].a - sd[1].b = Min2(rest, bound - real))
+                    THEN {<<"C03", "recovery-request", g, "">>} ELSE {})
+        : g \in Groups(pre)}
+C03f(line, pre) ==
+  UNION {LET T == TaintedOK(line, g)
+             nU == Cardinality(UntSet(pre, g))
+             mn == MinOf(line, pre, g)
+         IN (IF T # {} THEN {"C03:tainted"} ELSE {})
+            \cup (IF T # {} /\ nU - Cardinality(T) = mn THEN {"C03:tainted-down-to-min"} ELSE {})
+            \cup (IF T # {} /\ pre.groups[g].cfg.auto THEN {"C03:tainted-auto"} ELSE {})
+            \cup (IF ListedOK(line, g) /\ ~Dry(pre, g) /\ ~CtlLocked(pre, g) /\ InBounds(line, pre, g) /\ nU < mn THEN {"C03:recovery"} ELSE {})
+        : g \in Groups(pre)}
+
+-----------------------------------------------------------------------------
+\* C04 — cloud target never exceeds min(max_nodes, cloud maximum)
+C04v(line, pre, post, exp) ==
+  UNION {LET sd == SetDesireds(line, g)
+             bound == Min2(MaxOf(line, pre, g), CloudMax(line, pre, g))
+             U == UntaintedOK(line, g)
+             \* the scan's own demand: its remembered decision minus what it untainted
+             N == IF exp.res[g].branch = "below_min" THEN MinOf(line, pre, g) - Cardinality(UntSet(pre, g)) ELSE post.groups[g].ctl.delta
+             scalingUp == exp.res[g].branch \in {"up", "below_min"} /\ ~Dry(pre, g) /\ ~pre.groups[g].cfg.fleet
+             demand == N - Cardinality(U)
+         IN {<<"C04", "target-above-bound", g, "">> : i \in {j \in 1..Len(sd) : sd[j].a > bound}}
+            \cup (IF scalingUp /\ NoFaults(line) /\ ~pre.groups[g].lag /\ Len(sd) > 0 /\ demand > 0 /\ sd[1].b + demand > bound /\ bound - sd[1].b > 0 /\ sd[1].a # bound
+                    THEN {<<"C04", "clamp-not-on-bound", g, "">>} ELSE {})
+            \cup (IF scalingUp /\ Len(sd) > 0 /\ bound - sd[1].b <= 0 THEN {<<"C04", "request-without-headroom", g, "">>} ELSE {})
+        : g \in Groups(pre)}
+C04f(line, pre) ==
+  UNION {LET sd == SetDesireds(line, g)
+             bound == Min2(MaxOf(line, pre, g), CloudMax(line, pre, g))
+         IN (IF Len(sd) > 0 THEN {"C04:request"} ELSE {})
+            \cup (IF Len(sd) > 0 /\ sd[1].a = bound THEN {"C04:request-on-bound"} ELSE {})
+            \cup (IF Len(sd) > 0 /\ MaxOf(line, pre, g) < CloudMax(line, pre, g) THEN {"C04:max_nodes-below-cloud-max"} ELSE {})
+            \cup (IF Len(sd) > 0 /\ MaxOf(line, pre, g) > CloudMax(line, pre, g) THEN {"C04:max_nodes-above-cloud-max"} ELSE {})
+        : g \in Groups(pre)}
+
+-----------------------------------------------------------------------------
+\* C06 — direction and taint rate follow the utilisation bands
+Bands(W, g) ==   \* the set of bands the exact utilisation lies in (two at an exact threshold)
+  LET gs == W.groups[g]
+      unt == SetToSortedSeq(UntSet(W, g))
+      rc == ReqCpu(gs)  rm == ReqMem(gs)
+      cc == CapCpu(gs, unt)  cm == CapMem(gs, unt)
+      lt(t) == 100 * rc < t * cc /\ 100 * rm < t * cm
+      le(t) == 100 * rc <= t * cc /\ 100 * rm <= t * cm
+      gt(t) == 100 * rc > t * cc \/ 100 * rm > t * cm
+      ge(t) == 100 * rc >= t * cc \/ 100 * rm >= t * cm
+  IN (IF le(gs.cfg.lower) THEN {"fast"} ELSE {}) \cup (IF ge(gs.cfg.lower) /\ le(gs.cfg.upper) THEN {"slow"} ELSE {})
+     \cup (IF ge(gs.cfg.upper) /\ le(gs.cfg.up) THEN {"none"} ELSE {}) \cup (IF ge(gs.cfg.up) THEN {"up"} ELSE {})
+
+Starved(line, W, g) ==
+  LET gs == W.groups[g]  unt == SetToSortedSeq(UntSet(W, g)) IN
+  /\ gs.cfg.starve /\ Cardinality(UntSet(W, g)) < MaxOf(line, W, g)
+  /\ \/ (MaxPendCpu(gs) > 0 /\ MaxPendCpu(gs) > MaxFreeCpu(gs, unt))
+     \/ (MaxPendMem(gs) > 0 /\ MaxPendMem(gs) > MaxFreeMem(gs, unt))
+Aged(line, W, g) ==
+  LET gs == W.groups[g] IN
+  /\ gs.cfg.maxAge > 0 /\ Cardinality(UntSet(W, g)) = MinOf(line, W, g) /\ UntSet(W, g) # {} /\ TntSet(W, g) = {}
+  /\ \E n \in UntSet(W, g) : W.now - V(W, g)[n].created > gs.cfg.maxAge
+
+C06Applies(line, pre, g) ==
+  /\ ListedOK(line, g) /\ NoFaults(line) /\ ~Dry(pre, g) /\ ~pre.groups[g].lag /\ ~CtlLocked(pre, g)
+  /\ InBounds(line, pre, g) /\ Cardinality(UntSet(pre, g)) >= MinOf(line, pre, g) /\ UntSet(pre, g) # {}
+  /\ \A n \in UntSet(pre, g) : V(pre, g)[n].cpu > 0 /\ V(pre, g)[n].mem > 0
+  /\ line.ret = "nil" /\ ~line.panic /\ ~line.hang
+
+C06v(line, pre) ==
+  UNION {IF ~C06Applies(line, pre, g) THEN {} ELSE
+         LET gs == pre.groups[g]
+             B == Bands(pre, g)
+             nT == Cardinality(TaintedOK(line, g))
+             nU == Cardinality(UntaintedOK(line, g))
+             nS == Len(SetDesireds(line, g))
+             room == Cardinality(UntSet(pre, g)) - MinOf(line, pre, g)
+             trig == Starved(line, pre, g) \/ Aged(line, pre, g)
+             okFast == nT = Min2(gs.cfg.fast, room) /\ nU = 0 /\ nS = 0
+             okSlow == nT = Min2(gs.cfg.slow, room) /\ nU = 0 /\ nS = 0
+             okNone == nT = 0 /\ nU = 0 /\ nS = 0
+             okUp == nT = 0
+         IN IF trig THEN (IF nT # 0 THEN {<<"C06", "trigger-tainted", g, "">>} ELSE {})
+            ELSE IF \/ ("fast" \in B /\ okFast) \/ ("slow" \in B /\ okSlow) \/ ("none" \in B /\ okNone) \/ ("up" \in B /\ okUp) THEN {}
+            ELSE {<<"C06", "band-" \o (CHOOSE b \in B : TRUE), g, "">>}
+        : g \in Groups(pre)}
+C06f(line, pre) ==
+  UNION {IF ~C06Applies(line, pre, g) THEN {} ELSE
+         {"C06:band-" \o b : b \in Bands(pre, g)}
+         \cup (IF Cardinality(Bands(pre, g)) > 1 THEN {"C06:on-threshold"} ELSE {})
+         \cup (IF Starved(line, pre, g) THEN {"C06:starve"} ELSE {}) \cup (IF Aged(line, pre, g) THEN {"C06:max-age"} ELSE {})
+        : g \in Groups(pre)}
+
+-----------------------------------------------------------------------------
+\* C05 (controller level) — enough, and at most one more than needed, unless clamped
+EqualSizes(W, g) == \A a, b \in Listed(W, g) : V(W, g)[a].cpu = V(W, g)[b].cpu /\ V(W, g)[a].mem = V(W, g)[b].mem
+C05Applies(line, pre, g) ==
+  /\ C06Applies(line, pre, g) /\ Bands(pre, g) = {"up"} /\ EqualSizes(pre, g) /\ ~pre.groups[g].cfg.fleet
+  /\ ~Starved(line, pre, g) /\ ~Aged(line, pre, g)
+C05v(line, pre) ==
+  UNION {IF ~C05Applies(line, pre, g) THEN {} ELSE
+         LET gs == pre.groups[g]
+             n == Cardinality(UntSet(pre, g))
+             k == CHOOSE x \in UntSet(pre, g) : TRUE
+             Kc == V(pre, g)[k].cpu   Km == V(pre, g)[k].mem
+             needTotal == Max2(CeilDiv(100 * ReqCpu(gs), gs.cfg.up * Kc), CeilDiv(100 * ReqMem(gs), gs.cfg.up * Km))
+             needMin == needTotal - n
+             sd == SetDesireds(line, g)
+             bound == Min2(MaxOf(line, pre, g), CloudMax(line, pre, g))
+             brought == Cardinality(UntaintedOK(line, g)) + (IF Len(sd) > 0 /\ sd[1].ok THEN sd[1].a - sd[1].b ELSE 0)
+             clamped == (Len(sd) > 0 /\ sd[1].a = bound) \/ (Len(sd) = 0 /\ bound - pre.groups[g].asg.desired <= 0)
+         IN (IF brought < needMin /\ ~clamped THEN {<<"C05", "insufficient", g, "">>} ELSE {})
+            \cup (IF brought > needMin + 1 THEN {<<"C05", "more-than-one-extra", g, "">>} ELSE {})
+        : g \in Groups(pre)}
+C05f(line, pre) == UNION {IF C05Applies(line, pre, g) THEN {"C05:scale-up"} ELSE {} : g \in Groups(pre)}
+
+-----------------------------------------------------------------------------
+\* C07 — tainted nodes are reused (newest first) before capacity is bought
+C07Applies(line, pre, exp, g) == ListedOK(line, g) /\ ~Dry(pre, g) /\ ~pre.groups[g].lag /\ exp.res[g].branch \in {"up", "below_min"}
+C07v(line, pre, post, exp) ==
+  UNION {IF ~C07Applies(line, pre, exp, g) THEN {} ELSE
+         LET N == IF exp.res[g].branch = "below_min" THEN MinOf(line, pre, g) - Cardinality(UntSet(pre, g)) ELSE post.groups[g].ctl.delta
+             created == [n \in Listed(pre, g) |-> V(pre, g)[n].created]
+             cs == CallsOf(line, g)
+             gets == SelectSeq(cs, LAMBDA c : c.op = "get")
+             att == [i \in 1..Len(gets) |-> gets[i].n]
+             U == UntaintedOK(line, g)
+             fails == {att[i] : i \in 1..Len(att)} \ U
+             sd == SetDesireds(line, g)
+             bound == Min2(MaxOf(line, pre, g), CloudMax(line, pre, g))
+             rest == N - Cardinality(U)
+         IN (IF TntSet(pre, g) # {} /\ ~SelectOKSeq(created, -1, TntSet(pre, g), N, fails, att) THEN {<<"C07", "not-newest-first", g, "">>} ELSE {})
+            \cup (IF TntSet(pre, g) = {} /\ U # {} THEN {<<"C07", "untainted-an-untainted-node", g, "">>} ELSE {})
+            \cup (IF Len(sd) > 0 /\ (TntSet(pre, g) \ U) \ fails # {} THEN {<<"C07", "bought-while-tainted-node-left", g, "">>} ELSE {})
+            \cup (IF Len(sd) > 0 /\ ~pre.groups[g].cfg.fleet /\ sd[1].a - sd[1].b # Min2(rest, bound - sd[1].b)
+                    THEN {<<"C07", "request-not-remainder-on-current", g, "">>} ELSE {})
+            \cup (IF Len(sd) = 0 /\ ~pre.groups[g].cfg.fleet /\ NoFaults(line) /\ rest > 0 /\ bound - pre.groups[g].asg.desired + Cardinality(TermOK(line, g)) > 0
+                    THEN {<<"C07", "remainder-not-requested", g, "">>} ELSE {})
+        : g \in Groups(pre)}
+C07f(line, pre, exp) ==
+  UNION {IF ~C07Applies(line, pre, exp, g) THEN {} ELSE
+         {"C07:scale-up"} \cup (IF UntaintedOK(line, g) # {} THEN {"C07:reused"} ELSE {})
+         \cup (IF UntaintedOK(line, g) # {} /\ Len(SetDesireds(line, g)) > 0 THEN {"C07:reused-and-bought"} ELSE {})
+         \cup (IF TermOK(line, g) # {} /\ Len(SetDesireds(line, g)) > 0 THEN {"C07:removed-then-bought"} ELSE {})
+         \cup (IF \E a, b \in TntSet(pre, g) : a # b /\ V(pre, g)[a].created = V(pre, g)[b].created THEN {"C07:ties"} ELSE {})
+        : g \in Groups(pre)}
+
+-----------------------------------------------------------------------------
+\* C08 — scale-down taints the oldest first
+C08v(line, pre) ==
+  UNION {IF Dry(pre, g) THEN {} ELSE
+         LET T == TaintedOK(line, g)
+             failed == (Gets(line, g) \cup TaintAttempt(line, g)) \ T
+             left == UntSet(pre, g) \ T
+         IN {<<"C08", "older-node-left-untainted", g, u>> : u \in {x \in left \ failed : \E t \in T \cap Listed(pre, g) : V(pre, g)[x].created < V(pre, g)[t].created}}
+            \cup {<<"C08", "tainted-a-node-not-untainted", g, t>> : t \in T \ UntSet(pre, g)}
+        : g \in Groups(pre)}
+C08f(line, pre) ==
+  UNION {LET T == TaintedOK(line, g) IN
+         (IF T # {} THEN {"C08:tainted"} ELSE {})
+         \cup (IF T # {} /\ UntSet(pre, g) \ T # {} THEN {"C08:tainted-some-left"} ELSE {})
+         \cup (IF T # {} /\ \E a, b \in UntSet(pre, g) : a # b /\ V(pre, g)[a].created = V(pre, g)[b].created THEN {"C08:ties"} ELSE {})
+         \cup (IF T # {} /\ (Gets(line, g) \ T) # {} THEN {"C08:failed-write-skipped"} ELSE {})
+        : g \in Groups(pre)}
+
+-----------------------------------------------------------------------------
+\* C09 — cordoned nodes are never touched and never counted (outside dry mode)
+GaugeSet(line, g) == "gauges" \in DOMAIN line /\ g \in DOMAIN line.gauges /\ line.gauges[g].set
+C09v(line, pre) ==
+  UNION {IF Dry(pre, g) THEN {} ELSE
+         {<<"C09", "touched-cordoned:" \o c.op, g, c.n>> : c \in {line.calls[i] : i \in {j \in 1..Len(line.calls) :
+              /\ IsWrite(line.calls[j]) /\ line.calls[j].n \in Listed(pre, g) /\ V(pre, g)[line.calls[j].n].cordoned}}}
+         \cup (IF GaugeSet(line, g) /\ line.gauges[g].exact /\ ListedOK(line, g)
+                  /\ (line.gauges[g].cpuCap # SumSeq(SetToSortedSeq(UntSet(pre, g)), LAMBDA n : V(pre, g)[n].cpu)
+                      \/ line.gauges[g].memCap # SumSeq(SetToSortedSeq(UntSet(pre, g)), LAMBDA n : V(pre, g)[n].mem))
+               THEN {<<"C09", "capacity-not-over-untainted-uncordoned", g, "">>} ELSE {})
+        : g \in Groups(pre)}
+C09f(line, pre) ==
+  UNION {IF Dry(pre, g) \/ ~ListedOK(line, g) THEN {} ELSE
+         LET cord == {n \in Listed(pre, g) : V(pre, g)[n].cordoned} IN
+         (IF cord # {} THEN {"C09:cordoned-present"} ELSE {})
+         \cup (IF \E n \in cord : V(pre, g)[n].taint.has THEN {"C09:cordoned-tainted"} ELSE {})
+         \cup (IF \E n \in cord : V(pre, g)[n].force THEN {"C09:cordoned-force"} ELSE {})
+         \cup (IF \E n \in cord : V(pre, g)[n].taint.has /\ V(pre, g)[n].taint.ok /\ Age(pre, g, n) > pre.groups[g].cfg.hard THEN {"C09:cordoned-expired"} ELSE {})
+         \cup (IF cord # {} /\ GaugeSet(line, g) THEN {"C09:capacity-checked"} ELSE {})
+        : g \in Groups(pre)}
+
+-----------------------------------------------------------------------------
+\* C10 — the no-delete annotation protects from removal, not from tainting
+Protected(W, g, n) == n \in Listed(W, g) /\ V(W, g)[n].nodel /\ ~V(W, g)[n].force
+C10v(line, pre, exp) ==
+  UNION {{<<"C10", "removed-protected", g, n>> : n \in {m \in TermAttempt(line, g) \cup DelAttempt(line, g) : Protected(pre, g, m)}}
+         \cup \* it does not hold back the others: what the specification removes with the annotation ignored is still removed
+            (IF NoFaults(line) /\ ~Dry(pre, g) /\ (\E n \in Listed(pre, g) : Protected(pre, g, n)) /\ ListedOK(line, g)
+                /\ ~(exp.res[g].terminated \subseteq TermOK(line, g))
+             THEN {<<"C10", "held-back-others", g, "">>} ELSE {})
+        : g \in Groups(pre)}
+C10f(line, pre) ==
+  UNION {IF Dry(pre, g) \/ ~ListedOK(line, g) THEN {} ELSE
+         LET P == {n \in Listed(pre, g) : Protected(pre, g, n)} IN
+         (IF P # {} THEN {"C10:protected-present"} ELSE {})
+         \cup (IF \E n \in P : ~V(pre, g)[n].cordoned /\ (ClauseA(pre, g, n) \/ ClauseB(pre, g, n)) THEN {"C10:protected-expired-kept"} ELSE {})
+         \cup (IF P # {} /\ TermOK(line, g) # {} THEN {"C10:others-removed"} ELSE {})
+         \cup (IF P \cap TaintedOK(line, g) # {} THEN {"C10:protected-tainted"} ELSE {})
+         \cup (IF P \cap UntaintedOK(line, g) # {} THEN {"C10:protected-untainted"} ELSE {})
+        : g \in Groups(pre)}
+
+-----------------------------------------------------------------------------
+\* C11 — dry mode performs no writes
+C11v(line, pre) ==
+  UNION {IF Dry(pre, g) /\ WriteCalls(line, g) # <<>> THEN {<<"C11", "write-in-dry-mode:" \o WriteCalls(line, g)[1].op, g, WriteCalls(line, g)[1].n>>} ELSE {}
+        : g \in Groups(pre)}
+C11f(line, pre, post, exp) ==
+  UNION {IF ~Dry(pre, g) THEN {} ELSE
+         {"C11:dry-" \o exp.res[g].branch} \cup (IF pre.dryAll THEN {"C11:global-flag"} ELSE {"C11:group-flag"})
+         \cup (IF Len(post.groups[g].ctl.tracker) > Len(pre.groups[g].ctl.tracker) THEN {"C11:dry-taint"} ELSE {})
+         \cup (IF Len(post.groups[g].ctl.tracker) < Len(pre.groups[g].ctl.tracker) THEN {"C11:dry-untaint"} ELSE {})
+         \cup (IF post.groups[g].ctl.lockAt = pre.now /\ pre.groups[g].ctl.lockAt # pre.now THEN {"C11:dry-cloud-increase"} ELSE {})
+        : g \in Groups(pre)}
+
+-----------------------------------------------------------------------------
+\* C12 — groups are isolated (single-run part: targets, and later groups still processed)
+C12v(line, pre) ==
+  UNION {{<<"C12", "foreign-target:" \o c.op, g, c.n>> : c \in {line.calls[i] : i \in {j \in 1..Len(line.calls) :
+              LET c == line.calls[j] IN
+              /\ c.g = g
+              /\ \/ (c.op \in {"get", "update", "delete"} /\ c.n \notin DOMAIN pre.groups[g].api \cup Listed(pre, g))
+                 \/ (c.op = "terminate" /\ c.ok /\ c.b # 1)
+                 \/ (c.op = "set_desired" /\ c.n # g)}}}
+        : g \in Groups(pre)}
+  \cup (IF line.ret = "nil" /\ ~line.panic /\ ~line.hang /\ ~line.exit /\ \E i \in 1..Len(pre.gorder) : ~\E j \in 1..Len(line.calls) :
+            line.calls[j].op = "list_pods" /\ line.calls[j].g = pre.gorder[i]
+        THEN {<<"C12", "later-group-not-processed", "", "">>} ELSE {})
+C12f(line, pre) ==
+  (IF Cardinality(Groups(pre)) > 1 THEN {"C12:multi-group"} ELSE {})
+  \cup (IF Cardinality(Groups(pre)) > 1 /\ \E i \in 1..Len(line.calls) : ~line.calls[i].ok /\ line.calls[i].g # pre.gorder[Len(pre.gorder)] /\ line.calls[i].g # ""
+          THEN {"C12:failure-before-last-group"} ELSE {})
+  \cup (IF "default" \in Groups(pre) THEN {"C12:default-group"} ELSE {})
+
+-----------------------------------------------------------------------------
+\* C13 (controller level) — request / capacity / percent gauges against the abstract pods and nodes
+C13v(line, pre) ==
+  UNION {IF ~(GaugeSet(line, g) /\ ListedOK(line, g)) THEN {} ELSE
+         LET gs == pre.groups[g]
+             G == line.gauges[g]
+             cc == IF Dry(pre, g) THEN G.cpuCap ELSE SumSeq(SetToSortedSeq(UntSet(pre, g)), LAMBDA n : V(pre, g)[n].cpu)
+             cm == IF Dry(pre, g) THEN G.memCap ELSE SumSeq(SetToSortedSeq(UntSet(pre, g)), LAMBDA n : V(pre, g)[n].mem)
+             \* |pct/1000 - 100 req/cap| <= 1/1000  <=>  |pct * cap - 100000 * req| <= cap
+             near(p, req, cap) == LET d == p * cap - 100000 * req IN d <= cap /\ -d <= cap
+         IN (IF G.exact /\ (G.cpuReq # ReqCpu(gs) \/ G.memReq # ReqMem(gs)) THEN {<<"C13", "request-total", g, "">>} ELSE {})
+            \cup (IF G.exact /\ (G.cpuCap # cc \/ G.memCap # cm) THEN {<<"C13", "capacity-total", g, "">>} ELSE {})
+            \cup (IF G.pctSet /\ cc > 0 /\ cm > 0 /\ cc < 20000 /\ cm < 20000 /\ ReqCpu(gs) < 20000 /\ ReqMem(gs) < 20000
+                    /\ ~(near(G.cpuPct, ReqCpu(gs), cc) /\ near(G.memPct, ReqMem(gs), cm))
+                  THEN {<<"C13", "percent", g, "">>} ELSE {})
+        : g \in Groups(pre)}
+C13f(line, pre) ==
+  UNION {IF ~(GaugeSet(line, g) /\ ListedOK(line, g)) THEN {} ELSE
+         {"C13:totals-checked"} \cup (IF line.gauges[g].pctSet THEN {"C13:percent-checked"} ELSE {})
+         \cup (IF Len(pre.groups[g].pods) > 1 THEN {"C13:several-pods"} ELSE {})
+        : g \in Groups(pre)}
+
+-----------------------------------------------------------------------------
+\* C15 — taint writes are precise and never re-stamp
+C15v(line, pre, post) ==
+  UNION {{<<"C15", "imprecise-write:" \o c.s, g, c.n>> : c \in {line.calls[i] : i \in {j \in 1..Len(line.calls) :
+              LET c == line.calls[j] IN
+              /\ c.g = g /\ c.op = "update"
+              /\ ~ \/ (c.s = "taint:" \o EffectOf(pre.groups[g]) /\ c.b = 1 /\ c.a = pre.now
+                        /\ (c.n \in DOMAIN pre.groups[g].api => ~pre.groups[g].api[c.n].taint.has))
+                   \/ (c.s = "untaint:" /\ c.b = 1)}}}
+         \cup {<<"C15", "restamped", g, n>> : n \in {m \in DOMAIN pre.groups[g].api \cap DOMAIN post.groups[g].api :
+                   /\ pre.groups[g].api[m].taint.has /\ post.groups[g].api[m].taint.has
+                   /\ pre.groups[g].api[m].taint # post.groups[g].api[m].taint}}
+        : g \in Groups(pre)}
+C15f(line, pre) ==
+  UNION {(IF TaintedOK(line, g) # {} THEN {"C15:taint-write"} ELSE {})
+         \cup (IF UntaintedOK(line, g) # {} THEN {"C15:untaint-write"} ELSE {})
+         \cup (IF pre.groups[g].lag /\ \E n \in Gets(line, g) : n \in DOMAIN pre.groups[g].api /\ n \in Listed(pre, g)
+                    /\ pre.groups[g].api[n].taint.has /\ ~V(pre, g)[n].taint.has THEN {"C15:lagging-view-already-tainted"} ELSE {})
+        : g \in Groups(pre)}
+
+-----------------------------------------------------------------------------
+\* C19 (controller level) — decrement flag, Node deletes only after the whole cloud batch, desired - min, exit on not-in-group
+C19v(line, pre, exp) ==
+  LET cs == line.calls
+      isDel(i) == cs[i].op = "delete"
+      isTerm(i) == cs[i].op = "terminate"
+      \* start of the maximal run of terminate calls that ends just before the run of deletes containing i
+      lastNonDel(i) == CHOOSE k \in 0..i : (k = 0 \/ ~isDel(k)) /\ \A m \in (k + 1)..i : isDel(m)
+      \* a failed terminate call ends its batch (the provider stops at the first failure), so the batch that precedes a run of
+      \* deletes is the maximal run of ACCEPTED terminate calls just before it
+      okTerm(m) == isTerm(m) /\ cs[m].ok
+      runStart(k) == CHOOSE s \in 1..(k + 1) : (\A m \in s..k : okTerm(m) /\ cs[m].g = cs[k].g) /\ (s = 1 \/ ~(okTerm(s - 1) /\ cs[s - 1].g = cs[k].g))
+  IN {<<"C19", "terminate-without-decrement", cs[i].g, cs[i].n>> : i \in {j \in 1..Len(cs) : isTerm(j) /\ cs[j].a # 1}}
+     \cup {<<"C19", "node-deleted-before-cloud-batch-accepted", cs[i].g, cs[i].n>> : i \in {j \in 1..Len(cs) :
+              /\ isDel(j)
+              /\ LET k == lastNonDel(j) IN
+                 ~ /\ k > 0 /\ isTerm(k)
+                   /\ \A m \in runStart(k)..k : cs[m].ok
+                   /\ \E m \in runStart(k)..k : cs[m].n = cs[j].n}}
+     \cup UNION {IF Cardinality(TermOK(line, g)) > Max2(0, (IF RefreshFailed(line) THEN pre.groups[g].asg.desired ELSE pre.groups[g].asg.desired) - pre.groups[g].asg.min)
+                   THEN {<<"C19", "terminated-below-minimum", g, "">>} ELSE {} : g \in Groups(pre)}
+     \cup UNION {{<<"C19", "terminated-non-candidate-instance", g, n>> : n \in {m \in TermAttempt(line, g) : m \notin Listed(pre, g)}} : g \in Groups(pre)}
+     \cup (IF exp.ret = "notingroup" /\ exp.valid /\ line.ret # "notingroup" /\ ~line.panic /\ ~line.hang
+             THEN {<<"C19", "continued-after-not-in-group", "", "">>} ELSE {})
+C19f(line, pre, exp) ==
+  (IF \E i \in 1..Len(line.calls) : line.calls[i].op = "delete" THEN {"C19:node-deletes"} ELSE {})
+  \cup (IF \E i \in 1..Len(line.calls) : line.calls[i].op = "terminate" /\ ~line.calls[i].ok THEN {"C19:terminate-failed"} ELSE {})
+  \cup (IF exp.ret = "notingroup" THEN {"C19:not-in-group"} ELSE {})
+  \cup UNION {IF TermOK(line, g) # {} /\ Cardinality(TermOK(line, g)) = pre.groups[g].asg.desired - pre.groups[g].asg.min THEN {"C19:down-to-minimum"} ELSE {} : g \in Groups(pre)}
+  \cup UNION {IF \E r \in {exp.res[g]} : r.branch \in {"force_fatal", "down_fatal", "idle_fatal"} THEN {"C19:" \o exp.res[g].branch} ELSE {} : g \in Groups(pre)}
+
+-----------------------------------------------------------------------------
+\* C20 — a scan never panics or wedges; only the documented condition stops the controller
+C20v(line, pre, exp) ==
+  (IF line.panic THEN {<<"C20", "panic", "", line.panicMsg>>} ELSE {})
+  \cup (IF line.hang THEN {<<"C20", "hang", "", "">>} ELSE {})
+  \cup (IF line.exit /\ ~\E g \in Groups(pre) : pre.groups[g].cfg.fleet /\ pre.groups[g].tries >= 2 THEN {<<"C20", "undocumented-exit", "", "">>} ELSE {})
+  \cup (IF line.ret = "error" /\ ~line.panic /\ ~line.hang /\ ~line.exit THEN {<<"C20", "scan-aborted-by-non-fatal-problem", "", "">>} ELSE {})
+  \cup (IF line.ret = "notingroup" /\ exp.valid /\ exp.ret # "notingroup" THEN {<<"C20", "stopped-without-not-in-group", "", "">>} ELSE {})
+C20f(line, pre, exp) ==
+  (IF line.faults # <<>> THEN {"C20:faulty-scan"} ELSE {})
+  \cup {"C20:fault-" \o line.faults[i].op : i \in 1..Len(line.faults)}
+  \cup UNION {(IF \E n \in Listed(pre, g) : V(pre, g)[n].pid # "ok" THEN {"C20:odd-provider-id"} ELSE {})
+              \cup (IF \E n \in Listed(pre, g) : V(pre, g)[n].cpu = 0 THEN {"C20:zero-or-missing-allocatable"} ELSE {})
+              \cup (IF \E n \in Listed(pre, g) : V(pre, g)[n].taint.has /\ ~V(pre, g)[n].taint.ok THEN {"C20:unparsable-taint"} ELSE {})
+              \cup (IF \E n \in Listed(pre, g) : V(pre, g)[n].taint.has /\ V(pre, g)[n].taint.ok /\ V(pre, g)[n].taint.at > pre.now THEN {"C20:future-taint"} ELSE {})
+              \cup (IF exp.res[g].lookMay # {} THEN {"C20:cloud-lookups"} ELSE {})
+              \cup (IF exp.res[g].branch = "div_zero" THEN {"C20:zero-capacity-error"} ELSE {})
+             : g \in Groups(pre)}
+
+-----------------------------------------------------------------------------
+Violations(line, pre, post, exp) ==
+  C01v(line, pre) \cup C02v(line, pre) \cup C03v(line, pre, post) \cup C04v(line, pre, post, exp) \cup C05v(line, pre)
+  \cup C06v(line, pre) \cup C07v(line, pre, post, exp) \cup C08v(line, pre) \cup C09v(line, pre) \cup C10v(line, pre, exp)
+  \cup C11v(line, pre) \cup C12v(line, pre) \cup C13v(line, pre) \cup C15v(line, pre, post) \cup C19v(line, pre, exp) \cup C20v(line, pre, exp)
+
+Facts(line, pre, post, exp) ==
+  C01f(line, pre) \cup C02f(line, pre) \cup C03f(line, pre) \cup C04f(line, pre) \cup C05f(line, pre) \cup C06f(line, pre)
+  \cup C07f(line, pre, exp) \cup C08f(line, pre) \cup C09f(line, pre) \cup C10f(line, pre) \cup C11f(line, pre, post, exp)
+  \cup C12f(line, pre) \cup C13f(line, pre) \cup C15f(line, pre) \cup C19f(line, pre, exp) \cup C20f(line, pre, exp)
 =============================================================================
